@@ -54,6 +54,12 @@ def expiryOk (on : List String) : PInput → Bool
   | .scalar c => expiryCovered c
   | .table t => t.all fun col => on.contains col.1 || col.2.all expiryCovered
 
+/-- expiry slot only: `NAT` (`pd.NaT`) and `NAT64` (`np.datetime64('NaT')`) are the missing date, which the model holds as the
+cell `.str "NaT"` (the third spelling, the string `'NaT'` = `S:4e6154`, is that cell already) -/
+partial def normNat : Sexp → Sexp
+  | .atom s => if s == "NAT" || s == "NAT64" then .atom "S:4e6154" else .atom s
+  | .node xs => .node (xs.map normNat)
+
 def fModel (args : List Cell) : Val := .tuple (.cell (.str "f") :: args.map .cell)
 
 def tag (s : String) (v : Val) : Val := .tuple [.cell (.str s), v]
@@ -75,7 +81,7 @@ def handle1 (op : String) (args : List Sexp) : Option String := do
       let ps ← strsOf ps; let on := (← strsOf on).eraseDups        -- `ulist(as_list(self.on))`
       let defs ← defaultsOf (← Val.ofSexp defs)
       let ins ← inputsOf (← Val.ofSexp ins)
-      let exp ← inputOf (← Val.ofSexp exp)
+      let exp ← inputOf (← Val.ofSexp (normNat exp))
       let today ← match ← Val.ofSexp today with
         | .cell (.dt us) => some us
         | _ => Option.none
@@ -97,7 +103,7 @@ def handle1 (op : String) (args : List Sexp) : Option String := do
         | _ => Option.none
       let defs ← defaultsOf (← Val.ofSexp defs)
       let ins ← inputsOf (← Val.ofSexp ins)
-      let exp ← inputOf (← Val.ofSexp exp)
+      let exp ← inputOf (← Val.ofSexp (normNat exp))
       let today ← match ← Val.ofSexp today with
         | .cell (.dt us) => some us
         | _ => Option.none
